@@ -87,6 +87,31 @@ def reencodings(rel: str, data: bytes) -> list[tuple[str, bytes]]:
             doc = json.loads(data)
         except ValueError:
             return out
+        if rel == "dataset_info.json":
+            # edits that keep the file a valid description (what the
+            # supplied root checksums are there to catch)
+            import copy
+            ds_ = doc.get("dataset_structure", {})
+            algos = list(ds_.get("hash_checksum_algorithms", []))
+            edits = [("no checksum algorithms", "hash_checksum_algorithms",
+                      []),
+                     ("first checksum algorithm only",
+                      "hash_checksum_algorithms", algos[:1]),
+                     ("checksum algorithms reversed",
+                      "hash_checksum_algorithms", algos[::-1]),
+                     ("an extra checksum algorithm",
+                      "hash_checksum_algorithms", algos + ["md5"]),
+                     ("examples_per_shard + 1", "examples_per_shard",
+                      int(ds_.get("examples_per_shard", 1)) + 1)]
+            for what, key, val in edits:
+                d2 = copy.deepcopy(doc)
+                d2["dataset_structure"][key] = val
+                out.append((f"description edited: {what}",
+                            json.dumps(d2, indent=2).encode("utf-8")))
+            d3 = copy.deepcopy(doc)
+            d3.setdefault("metadata", {})["description"] = "edited"
+            out.append(("description edited: metadata text",
+                        json.dumps(d3, indent=2).encode("utf-8")))
         for what, kw in (("compact", dict(separators=(",", ":"))),
                          ("indent=2", dict(indent=2)),
                          ("indent=4", dict(indent=4)),
